@@ -109,12 +109,19 @@ extern "C" void harness(void)
 	vreach();
 #elif OP == 3
 	for (size_t i = 0; i < FCAP; i++) vio.f[0].data[i] = nondet_uchar();
-	size_t sz = nondet_uchar(); vassume(sz <= FILE_BYTES); vio.f[0].size = sz;
+	const size_t sz = FILE_BYTES; vio.f[0].size = sz;            // file length and decoder are concrete per obligation, every byte symbolic
 	File* f = openModelFile(true);
-	unsigned which = nondet_uchar() % 3;
-	if (which == 0) { ByteString b; bool ok = f->readByteString(b); if (ok) { vassert(sz >= 8 && b.size() + 8 <= sz); vreach(); } }
-	else if (which == 1) { std::set<CK_MECHANISM_TYPE> s; bool ok = f->readMechanismTypeSet(s); if (ok) { vassert(sz >= 8); vreach(); } }
-	else { std::map<CK_ATTRIBUTE_TYPE, OSAttribute> m; bool ok = f->readAttributeMap(m); if (ok) { vassert(sz >= 8); vreach(); } }
+	const unsigned which = WHICH;
+	// the 8-byte big-endian count / length field the file starts with (what a complete value needs is decided by it)
+	unsigned long field = 0; for (int i = 0; i < 8; i++) field = (field << 8) | vio.f[0].data[i];
+#if FILE_BYTES >= 8
+#define DECODE_REACH() vreach()
+#else
+#define DECODE_REACH()          /* a file shorter than the length field can never be decoded: no witness */
+#endif
+	if (which == 0) { ByteString b; bool ok = f->readByteString(b); if (ok) { vassert(sz >= 8 && b.size() == field && field + 8 <= sz); DECODE_REACH(); } }
+	else if (which == 1) { std::set<CK_MECHANISM_TYPE> s; bool ok = f->readMechanismTypeSet(s); if (ok) { vassert(sz >= 8 && field <= (sz - 8) / 8); vassert(s.size() <= field); DECODE_REACH(); } }   // every announced element was there
+	else { std::map<CK_ATTRIBUTE_TYPE, OSAttribute> m; bool ok = f->readAttributeMap(m); if (ok) { vassert(sz >= 8 && field <= sz - 8); DECODE_REACH(); } }
 	vreach();
 #endif
 }
